@@ -1,4 +1,5 @@
 import Receptor.Model.Work
+import Receptor.Proofs.WorkNode
 import Receptor.Generated.Facts
 /-!
 # C19 — secret work parameters are never disclosed by the API nor sent without TLS
@@ -57,3 +58,146 @@ example : redact [([83, 69, 67, 82, 69, 84, 95, 120], [1]), ([115, 101, 99, 114,
     = [([115, 101, 99, 114, 101, 116], [2])] := by decide
 
 end Receptor.Work
+
+/-! ## over histories -/
+namespace Receptor.WorkNode
+open Receptor.Work
+
+/-- **never_disclosed.** From the moment of submission to release, across any sequence of submit, status, list,
+cancel, release, results commands (with or without tokens, on any connection) and restarts, from any state:
+no response shows a parameter whose name begins with `secret_` in any letter case. -/
+theorem never_disclosed : ∀ (ops : List Op) (n : Node) (o : Out), o ∈ (run n ops).2 →
+    ∀ l, o = .shown l → ∀ q ∈ l, ∀ e ∈ q.2, isSecretKey e.1 = false := by
+  intro ops
+  induction ops with
+  | nil => intro n o ho; simp [run] at ho
+  | cons op rest ih =>
+    intro n o ho l hl q hq e he
+    simp only [run, List.mem_cons] at ho
+    cases ho with
+    | inr h1 => exact ih _ o h1 l hl q hq e he
+    | inl h1 =>
+      subst hl
+      obtain ⟨u, _, rfl⟩ := step_shown n op l h1.symm q hq
+      exact redacted_has_no_secret_key u.params e he
+
+/-- **reported_is_redacted_submission.** … while all other parameters are reported unchanged: whatever a
+response shows for a unit is exactly the parameter map of some earlier submission with the secret entries
+removed — after any number of other commands and restarts in between. -/
+theorem reported_is_redacted_submission : ∀ (ops : List Op) (n : Node) (prev : List Cmd),
+    (∀ u ∈ n.units, ∃ c ∈ prev, c.sub = .submit ∧ u.params = c.params) →
+    ∀ o ∈ (run n ops).2, ∀ l, o = .shown l → ∀ q ∈ l,
+      ∃ c, (c ∈ prev ∨ Op.cmd c ∈ ops) ∧ c.sub = .submit ∧ q.2 = redact c.params := by
+  intro ops
+  induction ops with
+  | nil => intro n prev _ o ho; simp [run] at ho
+  | cons op rest ih =>
+    intro n prev hinv o ho l hl q hq
+    simp only [run, List.mem_cons] at ho
+    cases ho with
+    | inl h1 =>
+      subst hl
+      obtain ⟨u, hu, rfl⟩ := step_shown n op l h1.symm q hq
+      obtain ⟨c, hc, hs, hp⟩ := hinv u hu
+      exact ⟨c, Or.inl hc, hs, by simp [report, hp]⟩
+    | inr h1 =>
+      -- the invariant for the next state, with this step's command added to the known submissions
+      have hinv' : ∀ u ∈ (step n op).1.units, ∃ c, (c ∈ prev ∨ Op.cmd c = op) ∧ c.sub = .submit ∧ u.params = c.params := by
+        intro u' hu'
+        rcases step_units n op with h | ⟨c, hop, hs, hunits, _⟩ | h
+        · rw [h] at hu'
+          obtain ⟨c, hc, hs, hp⟩ := hinv u' hu'
+          exact ⟨c, Or.inl hc, hs, hp⟩
+        · rw [hunits, List.mem_append] at hu'
+          cases hu' with
+          | inl h2 =>
+            obtain ⟨c', hc, hs', hp⟩ := hinv u' h2
+            exact ⟨c', Or.inl hc, hs', hp⟩
+          | inr h2 =>
+            simp only [List.mem_singleton] at h2
+            subst h2
+            exact ⟨c, Or.inr hop.symm, hs, rfl⟩
+        · obtain ⟨u, hu, _, hpar, _, _⟩ := h u' hu'
+          obtain ⟨c, hc, hs, hp⟩ := hinv u hu
+          exact ⟨c, Or.inl hc, hs, by rw [← hpar, hp]⟩
+      cases op with
+      | restart =>
+        obtain ⟨c, hc, hs, hp⟩ := ih (step n .restart).1 prev
+          (by intro u hu
+              obtain ⟨c, hc, hs, hp⟩ := hinv' u hu
+              cases hc with
+              | inl h => exact ⟨c, h, hs, hp⟩
+              | inr h => cases h) o h1 l hl q hq
+        refine ⟨c, ?_, hs, hp⟩
+        cases hc with
+        | inl h => exact Or.inl h
+        | inr h => exact Or.inr (List.mem_cons_of_mem _ h)
+      | cmd c0 =>
+        obtain ⟨c, hc, hs, hp⟩ := ih (step n (.cmd c0)).1 (c0 :: prev)
+          (by intro u hu
+              obtain ⟨c, hc, hs, hp⟩ := hinv' u hu
+              cases hc with
+              | inl h => exact ⟨c, List.mem_cons_of_mem _ h, hs, hp⟩
+              | inr h =>
+                have : c = c0 := by injection h
+                subst this
+                exact ⟨c, List.mem_cons_self .., hs, hp⟩) o h1 l hl q hq
+        refine ⟨c, ?_, hs, hp⟩
+        cases hc with
+        | inl h =>
+          simp only [List.mem_cons] at h
+          cases h with
+          | inl h => subst h; exact Or.inr (List.mem_cons_self ..)
+          | inr h => exact Or.inl h
+        | inr h => exact Or.inr (List.mem_cons_of_mem _ h)
+
+/-- the same from a node that holds nothing yet: every reported map is a redacted submission of this history -/
+theorem reported_is_redacted_submission_from_empty (ops : List Op) (key : Bool) :
+    ∀ o ∈ (run { key := key } ops).2, ∀ l, o = .shown l → ∀ q ∈ l,
+      ∃ c, Op.cmd c ∈ ops ∧ c.sub = .submit ∧ q.2 = redact c.params := by
+  intro o ho l hl q hq
+  obtain ⟨c, hc, hs, hp⟩ := reported_is_redacted_submission ops { key := key } [] (by intro u hu; cases hu) o ho l hl q hq
+  cases hc with
+  | inl h => cases h
+  | inr h => exact ⟨c, h, hs, hp⟩
+
+/-- **secrets_only_with_tls.** In every history, every remote unit the node ever stores whose parameters
+contain a secret names a TLS client profile (the refusal comes before anything is stored). -/
+theorem secrets_only_with_tls : ∀ (ops : List Op) (n : Node), (∀ u ∈ n.units, TlsOK u) →
+    ∀ u ∈ (run n ops).1.units, TlsOK u := by
+  intro ops
+  induction ops with
+  | nil => intro n h; simpa [run] using h
+  | cons op rest ih =>
+    intro n h
+    simp only [run]
+    apply ih
+    intro u' hu'
+    rcases step_units n op with h1 | ⟨c, _, _, hunits, htls⟩ | h1
+    · rw [h1] at hu'; exact h u' hu'
+    · rw [hunits, List.mem_append] at hu'
+      cases hu' with
+      | inl h2 => exact h u' h2
+      | inr h2 =>
+        simp only [List.mem_singleton] at h2
+        subst h2
+        exact htls
+    · obtain ⟨u, hu, _, hpar, htl, hcfg⟩ := h1 u' hu'
+      have := h u hu
+      unfold TlsOK at this ⊢
+      rw [← hpar, ← htl, ← hcfg]
+      exact this
+
+/-- Non-vacuity: a submission with a mixed-case secret and a plain parameter, a restart, a status and a list. -/
+example :
+    (run {} [.cmd { sub := .submit, cfg := ⟨true, false, true, false⟩, tls := [1], conn := .unix, tok := ⟨false, false⟩,
+                    params := [([83, 69, 67, 82, 69, 84, 95, 120], [1]), ([97], [2])] },
+             .restart,
+             .cmd { sub := .status, target := 0, conn := .other, tok := ⟨false, false⟩ },
+             .cmd { sub := .list, conn := .other, tok := ⟨false, false⟩ },
+             .cmd { sub := .submit, cfg := ⟨true, false, true, false⟩, tls := [], conn := .unix, tok := ⟨false, false⟩,
+                    params := [([83, 69, 67, 82, 69, 84, 95, 120], [1])] }]).2
+      = [.done, .restarted, .shown [(0, [([97], [2])])], .shown [(0, [([97], [2])])], .refusedSecrets] := by
+  decide
+
+end Receptor.WorkNode
